@@ -60,7 +60,7 @@ def envs(fx, tier="thorough"):
         rnd = _r.Random(7)
         vals = [Fraction(0), Fraction(1, 2), Fraction(1), Fraction(2), Fraction(3)]
         rs = [Fraction(0), Fraction(1, 4), Fraction(1, 2), Fraction(3, 4), Fraction(99, 100), Fraction(1, 3), Fraction(2, 3)]
-        for i in range(4 if tier == "quick" else 14):
+        for i in range(2 if tier == "quick" else 14):
             util = [rnd.choice(vals) for _ in range(n)]
             rank = [rnd.choice([0, 0, 1, 2]) for _ in range(n)]
             for s in range(1, n + 1):
